@@ -19,6 +19,9 @@ CHECKS = {
  "C03": dict(level="exploration", design="§4 C03",
    text="Seeded differential monitoring of ConfigStd.Marshal against encoding/json.Marshal over freshly compiled encoder programs (random reflect-built types + catalogue with Marshaler/TextMarshaler on value and pointer receivers, erroring and invalid-output marshalers, every map key kind, recursive and embedded types), values passed by value, by pointer, inside []interface{} and inside map[string]interface{}; outputs compared as token streams (numbers byte-exact, strings by denoted value, order exact) and error-or-not; jit, sse and vm processes.",
    technique="runtime differential monitor vs encoding/json.Marshal; token-stream oracle via a reference parser"),
+ "C04": dict(level="exploration", design="§4 C04",
+   text="Seeded monitoring of encoder.Encode under all 512 option sets (visited round-robin): values without a JSON representation (cycles through pointers/maps/slices/interfaces, chan, func, complex, invalid json.Number) must error under every set; pure random types must yield exactly one well-formed value (valid UTF-8 under ValidateString, no raw <>& under EscapeHTML) that decodes back, with encoding/json and with sonic, to what encoding/json's own round trip gives (float bits, ints, strings, containers; nil slices/maps made empty first under NoNullSliceOrMap); NaN/Inf must error unless EncodeNullForInfOrNan; catalogue types with marshalers are checked for well-formedness.",
+   technique="runtime oracle: json.Valid + reference parser + round trip through two decoders; exhaustive over the 2^9 option sets, seeded over values"),
  "C11": dict(level="exploration", design="§4 C11",
    text="Cross-process equivalence monitoring: the C01 case list is decoded in three processes (jitdec, SONIC_USE_OPTDEC=1, +SONIC_USE_FASTMAP=1) and per-case digests (error-or-not + canonical deep dump) are compared for every json.Valid document; all processes must reject structurally malformed documents. The verif bridge reports the implementation really in use.",
    technique="cross-process digest diff over a shared seeded case list (runtime monitoring of both implementations); bridge-reported configuration"),
